@@ -612,13 +612,15 @@ pub fn guarded_formula(cfg: &FolCfg) -> BoxedStrategy<fol::Formula> {
                     };
                     quant(forall, outer_vars, bin(conn, inner_q, other))
                 });
-            let equivalence_shape = (inner.clone(), inner.clone())
-                .prop_map(|(f, g)| {
-                    bin(
-                        fol::BinaryConnective::Conjunction,
-                        bin(fol::BinaryConnective::Implication, f.clone(), g.clone()),
-                        bin(fol::BinaryConnective::Implication, g, f),
-                    )
+            // two implications over the same pair of formulas, written with -> or <- and with the
+            // operands in either order: `(F -> G) and (G -> F)` is the definition of an equivalence,
+            // `(F -> G) and (G <- F)` states one implication twice
+            let equivalence_shape = (inner.clone(), inner.clone(), 0u8..16)
+                .prop_map(|(f, g, k)| {
+                    let arrow = |rev: bool| if rev { fol::BinaryConnective::ReverseImplication } else { fol::BinaryConnective::Implication };
+                    let first = bin(arrow(k & 1 != 0), f.clone(), g.clone());
+                    let second = if k & 2 != 0 { bin(arrow(k & 4 != 0), f, g) } else { bin(arrow(k & 4 != 0), g, f) };
+                    bin(if k & 8 != 0 && k & 7 == 7 { fol::BinaryConnective::Disjunction } else { fol::BinaryConnective::Conjunction }, first, second)
                 });
             prop_oneof![
                 2 => inner.clone().prop_map(not),
